@@ -398,6 +398,8 @@ def container_subclass_case(rng, tier, rec, st):
     collections package: the generated code builds collections.deque(...) & co. and has to bind that module itself."""
     import collections
     from mashumaro.codecs.basic import BasicDecoder, BasicEncoder
+    if rng.random() < 0.3:
+        return local_default_factory_case(rng, tier, rec, st)
     fam = Family("c17", future_annotations=rng.random() < 0.2)
     try:
         names = rng.sample(sorted(CONTAINER_SUBCLASSES), rng.randint(1, 2))
@@ -432,6 +434,52 @@ def container_subclass_case(rng, tier, rec, st):
             else:
                 rec.violation(f"container-subclass:{name}:wrong-value", dict(ctx, observed=[common.short(out, 200), common.short(back, 200)], expected=common.short(doc, 200)), facts)
         walk_new_functions(rec, st, dict(ctx, kind="container-subclass"))
+    finally:
+        fam.dispose()
+
+
+def local_default_factory_case(rng, tier, rec, st):
+    """DefaultDict[K, C] with C defined inside a function: the factory of the rebuilt defaultdict is C itself (by identity)."""
+    from mashumaro.codecs.basic import BasicDecoder
+    fam = Family("c17")
+    try:
+        mixin = rng.random() < 0.6
+        vkind = rng.choice(["dataclass", "enumdefault", "list"])
+        vsrc = {"dataclass": "    @dataclass\n    class Local:\n        x: int = 0\n", "enumdefault": "    class Local(int):\n        pass\n",
+                "list": "    Local = list\n"}[vkind]
+        vann = {"dataclass": "Local", "enumdefault": "int", "list": "List[int]"}[vkind]
+        src = ("def make():\n" + vsrc +
+               f"    @dataclass\n    class B{'(DataClassDictMixin)' if mixin else ''}:\n"
+               f"        m: DefaultDict[str, {'Local' if vkind == 'dataclass' else vann}] = field(default_factory=lambda: collections.defaultdict(Local))\n"
+               "    return Local, B\nLocal, B = make()\n")
+        ctx = {"source": src}
+        facts = {"scenario": "local-default-factory", "monitor": "container-subclass", "value_kind": vkind}
+        rec.evaluation()
+        try:
+            fam.exec_src(src)
+        except Exception as e:
+            rec.violation(f"local-default-factory:class-build:{type(e).__name__}", dict(ctx, error=f"{type(e).__name__}: {e}"[:300]), dict(facts, exc=type(e).__name__))
+            return
+        m = fam.module
+        doc = {"m": {"k": {"dataclass": {"x": 1}, "enumdefault": 5, "list": [1]}[vkind]}}
+        routes = [("codec", lambda: BasicDecoder(m.B).decode(doc))] + ([("mixin", lambda: m.B.from_dict(doc))] if mixin else [])
+        for name, fn in routes:
+            rec.evaluation()
+            try:
+                back = fn()
+                # (what the factory of the rebuilt defaultdict makes is only looked at for the local class: for typing.List[int]
+                # the library passes the alias itself, which cannot be called - no property speaks about the factory)
+                missing = back.m["absent"] if vkind == "dataclass" else None
+            except Exception as e:
+                rec.violation(f"local-default-factory:{name}:{type(e).__name__}", dict(ctx, error=f"{type(e).__name__}: {e}"[:300], cause=repr(e.__context__)[:200]), dict(facts, exc=type(e).__name__))
+                continue
+            want = {"dataclass": m.Local, "enumdefault": int, "list": list}[vkind]
+            if type(back.m["k"]) is want and (vkind != "dataclass" or type(missing) is m.Local):
+                rec.count("container_subclasses_ok")
+                rec.nontrivial(("local-default-factory", name, vkind, mixin))
+            else:
+                rec.violation(f"local-default-factory:{name}:wrong-class-or-value", dict(ctx, observed=common.short(back, 200), factory_made=repr(missing)[:80]), facts)
+        walk_new_functions(rec, st, dict(ctx, kind="local-default-factory"))
     finally:
         fam.dispose()
 
